@@ -115,17 +115,25 @@ class PropScenario(explore.Scenario):
         w = W()
         w.cw = fakes.ClientWorld()
         Base, Derived = make_family()
-        w.objs = {'b': Base('/b'), 'd': Derived('/d')}
-        w.keys = {'b': BASE_KEYS, 'd': DERIVED_KEYS}
-        w.store = {'b': {}, 'd': {}}
+        # 'c' is a second instance of the base class whose properties are
+        # read (locally) before anything was assigned to them and which then
+        # gets different values: instances must not share their values
+        w.objs = {'b': Base('/b'), 'd': Derived('/d'), 'c': Base('/c')}
+        w.keys = {'b': BASE_KEYS, 'd': DERIVED_KEYS, 'c': BASE_KEYS}
+        w.store = {'b': {}, 'd': {}, 'c': {}}
         order = self.params.get('init_order', ['b', 'd'])
-        for name in order:
+        if self.params.get('read_first', True):
+            for k in BASE_KEYS:
+                if getattr(w.objs['c'], ATTR[k]) is not None:
+                    raise core.HarnessError('unassigned property reads %r'
+                                            % (k,))
+        for name in list(order) + ['c']:
             o = w.objs[name]
             for k in w.keys[name]:
-                v = VALUES[DECL[k][0]][0]
+                v = VALUES[DECL[k][0]][1 if name == 'c' else 0]
                 setattr(o, ATTR[k], to_local(DECL[k][0], v))
                 w.store[name][k] = v
-        for name in order:
+        for name in list(order) + ['c']:
             w.cw.conn.exportObject(w.objs[name])
         w.cw.sent()
         w.serial = 200
@@ -136,7 +144,9 @@ class PropScenario(explore.Scenario):
 
     def enabled(self, w):
         evs = []
-        for name in ('b', 'd'):
+        for name in ('b', 'd', 'c'):
+            if name == 'c' and not self.params.get('touch_c'):
+                continue
             for ki, k in enumerate(DERIVED_KEYS):
                 if k not in w.keys[name]:
                     continue
@@ -286,8 +296,10 @@ class PropScenario(explore.Scenario):
                 % (ev, got_sig, want_sig)))
         # the store of every object that should not have changed did not
         viol.extend(self._readback(w, ev[1], ev, tag))
-        other_name = 'd' if ev[1] == 'b' else 'b'
-        viol.extend(self._readback(w, other_name, ev, tag, light=True))
+        for other_name in ('b', 'd', 'c'):
+            if other_name != ev[1]:
+                viol.extend(self._readback(w, other_name, ev, tag,
+                                           light=True))
         return viol
 
     def _tag(self, ev):
